@@ -309,6 +309,13 @@ func init() {
 		}
 		return VInt{BVu(64, 0)}
 	}
+	for _, n := range []string{"math.Min", "math.Max", "math.Floor", "math.Ceil", "math.Abs", "math.Pow", "math.Log", "math.Exp", "math.Sqrt", "math.Trunc", "math.Round"} {
+		intrinsics[n] = func(e *Exec, a []Value) Value { return floatTok }
+	}
+	intrinsics["(*math/big.Rat).Float64"] = func(e *Exec, a []Value) Value {
+		e.nondet++
+		return VTuple{[]Value{floatTok, VBool{e.fresh(sprintf("rat_exact_%d", e.nondet), SBool)}}}
+	}
 	intrinsics[S+"Symbolic"] = func(e *Exec, a []Value) Value { return VBool{BoolC(true)} }
 
 	verifHooks["verifBool"] = func(e *Exec, a []Value) Value {
